@@ -49,12 +49,13 @@ def plan(tier, seed):
     out.append({'arrival': 'idle', 'how': 'quit', 'seed': seed, 'idx': len(out)})
     out.append({'arrival': 'idle', 'how': 'INT', 'seed': seed, 'idx': len(out)})
     out.append({'arrival': 'during-stop', 'how': 'QUIT', 'seed': seed, 'idx': len(out)})
-    for pre in ['live', 'dead', 'empty', 'garbage', 'own']:
+    for pre in ['live', 'dead', 'empty', 'garbage', 'own', 'live-foreign']:
         out.append({'arrival': 'idle', 'how': 'quit', 'prepid': pre, 'seed': seed, 'idx': len(out)})
     # a long exclusive operation: the signal arrives many seconds before it ends
     out.append({'arrival': 'during-long-stop', 'how': 'TERM', 'seed': seed, 'idx': len(out)})
     out.append({'arrival': 'idle', 'how': 'quit', 'late_add': True, 'seed': seed, 'idx': len(out)})
     out.append({'arrival': 'idle', 'how': 'TERM', 'replace': True, 'seed': seed, 'idx': len(out)})
+    out.append({'arrival': 'idle', 'how': 'quit', 'streams': True, 'seed': seed, 'idx': len(out)})
     out.append({'arrival': 'early-startup', 'how': 'TERM', 'seed': seed, 'idx': len(out)})
     out.append({'arrival': 'early-startup', 'how': 'INT', 'seed': seed, 'idx': len(out)})
     out.append({'arrival': 'early-startup', 'how': 'TERM', 'early_delay': 0.02, 'seed': seed, 'idx': len(out)})
@@ -71,7 +72,8 @@ def build(rnd, spec):
     nw = rnd.randint(1, 3)
     for i in range(nw):
         kind = rnd.choice(['obedient', 'slow', 'stubborn'])
-        ws.append({'name': 'w%d' % i, 'kind': kind, 'np': rnd.randint(1, 2), 'gt': 1.0, 'warmup': 0})
+        ws.append({'name': 'w%d' % i, 'kind': kind, 'np': rnd.randint(1, 2), 'gt': 1.0, 'warmup': 0,
+                   'streams': rnd.random() < .3 or (i == 0 and bool(spec.get('streams')))})
     if arrival in ('during-stop', 'during-restart'):
         ws[0]['kind'] = 'stubborn'
     if arrival == 'during-long-stop':
@@ -104,8 +106,14 @@ def ini_for(d, conf):
     for w in conf['watchers']:
         spec = dict(KINDS[w['kind']])
         spec['log'] = '@LOG@'
-        txt += ('[watcher:%s]\ncmd = %s\nnumprocesses = %d\ngraceful_timeout = %s\nwarmup_delay = %d\ncopy_env = True\n\n'
+        txt += ('[watcher:%s]\ncmd = %s\nnumprocesses = %d\ngraceful_timeout = %s\nwarmup_delay = %d\ncopy_env = True\n'
                 % (w['name'], live.worker_cmd(spec), w['np'], w['gt'], w['warmup']))
+        if w.get('streams'):
+            # output captured into files; /dev/null (cannot be fsync'ed, cannot be rotated) is a documented way to
+            # throw a channel away
+            txt += ('stdout_stream.class = FileStream\nstdout_stream.filename = @DIR@/%s.out\n'
+                    'stderr_stream.class = FileStream\nstderr_stream.filename = /dev/null\n' % w['name'])
+        txt += '\n'
     if conf['sockets']:
         txt += ('[socket:u]\npath = @DIR@/managed.sock\n%s\n[socket:i]\nhost = 127.0.0.1\nport = 0\n\n'
                 % ('replace = True\n' if conf.get('replace') else ''))
@@ -162,6 +170,15 @@ def _case(d, conf, spec, pidfile, res):
     if pre:
         if pre == 'live':
             pre_content = '%d\n' % os.getpid()
+        elif pre == 'live-foreign':
+            # the pid file names a live process of ANOTHER user (init) and the daemon does not run as root: it cannot
+            # even probe that process (EPERM) -- which is no proof that it is gone
+            pre_content = '1\n'
+            d.strace = False
+            for path_ in (d.dir, d.logdir):
+                os.chmod(path_, 0o777)
+            os.chmod(d.ini_path, 0o644)
+            d.as_uid = 65534
         elif pre == 'dead':
             p = subprocess.Popen(['/bin/true'])
             p.wait()
@@ -181,13 +198,15 @@ def _case(d, conf, spec, pidfile, res):
         if pre_content is not None:
             with open(pidfile, 'w') as f:
                 f.write(pre_content)
+            if d.as_uid is not None:
+                os.chown(pidfile, d.as_uid, d.as_uid)       # the user's own pid file, of an earlier run
     d.start()
-    if pre == 'live':
+    if pre in ('live', 'live-foreign'):
         rc = d.wait_exit(15)
-        res.obs['pidfile_cases:live'] += 1
+        res.obs['pidfile_cases:' + pre] += 1
         if rc is None:
-            res.violation('C08/started-despite-live-pidfile', 'pid file names the live process %d but circusd is running'
-                          % os.getpid())
+            res.violation('C08/started-despite-live-pidfile' + ('[process-of-another-user]' if pre == 'live-foreign' else ''),
+                          'pid file names the live process %s but circusd is running' % pre_content.strip())
         elif rc == 0:
             res.violation('C08/live-pidfile-exit-status-0', 'circusd refused to start (pid file names a live process) but '
                           'exited with status 0: %s' % d.output()[-200:])
